@@ -116,6 +116,12 @@ func srvDatagram(v6 bool, k SrvDgKind, serial int) ([]byte, net.Addr) {
 			p.UpdateOption(dhcpv4.OptMessageType(dhcpv4.MessageTypeRequest))
 			p.UpdateOption(dhcpv4.OptHostName(fmt.Sprintf("host-%d", serial)))
 			p.UpdateOption(dhcpv4.OptRequestedIPAddress(net.IPv4(10, 0, 0, byte(100+serial))))
+			tagS := fmt.Sprintf("dg-%03d", serial)
+			p.UpdateOption(dhcpv4.OptClientIdentifier([]byte("id-" + tagS)))
+			p.UpdateOption(dhcpv4.OptRelayAgentInfo(dhcpv4.OptGeneric(dhcpv4.GenericOptionCode(1), []byte("ci-"+tagS)), dhcpv4.OptGeneric(dhcpv4.GenericOptionCode(2), []byte("ri-"+tagS))))
+			p.UpdateOption(dhcpv4.OptUserClass("uc-" + tagS))
+			p.UpdateOption(dhcpv4.OptDomainSearch(&rfc1035label.Labels{Labels: []string{tagS + ".example.org"}}))
+			p.UpdateOption(dhcpv4.OptGeneric(dhcpv4.GenericOptionCode(231), bytes.Repeat([]byte(tagS), 50))) // 350 bytes: travels as two instances
 		}
 		b := p.ToBytes()
 		if k == SdOdd {
@@ -133,8 +139,22 @@ func srvDatagram(v6 bool, k SrvDgKind, serial int) ([]byte, net.Addr) {
 		m.MessageType = dhcpv6.MessageTypeRequest
 		m.AddOption(&dhcpv6.OptRemoteID{EnterpriseNumber: 7, RemoteID: []byte(fmt.Sprintf("remote-%d", serial))})
 		m.AddOption(dhcpv6.OptDomainSearchList(&rfc1035label.Labels{Labels: []string{fmt.Sprintf("d%d.example.org", serial)}}))
+		// one option of every kind that keeps bytes of its own (an option decoder that stops copying shows when the
+		// server reuses its read buffer): vendor sub-options, class data, a status message, a URL, identifiers, nested IA
+		tagS := fmt.Sprintf("dg-%03d", serial)
+		m.AddOption(&dhcpv6.OptVendorOpts{EnterpriseNumber: 4491, VendorOpts: dhcpv6.Options{&dhcpv6.OptionGeneric{OptionCode: 1, OptionData: []byte("vo-" + tagS)}}})
+		m.AddOption(&dhcpv6.OptVendorClass{EnterpriseNumber: 9, Data: [][]byte{[]byte("vc-" + tagS)}})
+		m.AddOption(&dhcpv6.OptUserClass{UserClasses: [][]byte{[]byte("uc-" + tagS)}})
+		m.AddOption(&dhcpv6.OptStatusCode{StatusCode: 0, StatusMessage: "st-" + tagS})
+		m.AddOption(dhcpv6.OptBootFileURL("tftp://h/" + tagS))
+		m.AddOption(dhcpv6.OptServerID(&dhcpv6.DUIDEN{EnterpriseNumber: 7, EnterpriseIdentifier: []byte("id-" + tagS)}))
+		m.AddOption(&dhcpv6.OptIANA{IaId: [4]byte{1, 2, 3, byte(serial)}, Options: dhcpv6.IdentityOptions{Options: dhcpv6.Options{
+			&dhcpv6.OptIAAddress{IPv6Addr: net.ParseIP(fmt.Sprintf("2001:db8::%x", 0x100+serial)), Options: dhcpv6.AddressOptions{Options: dhcpv6.Options{&dhcpv6.OptStatusCode{StatusMessage: "ia-" + tagS}}}}}}})
+		m.AddOption(&dhcpv6.OptNTPServer{Suboptions: dhcpv6.Options{&dhcpv6.NTPSuboptionSrvFQDN{Labels: rfc1035label.Labels{Labels: []string{tagS + ".ntp.example"}}}}})
 		// addresses differ per datagram so that state shared between datagrams shows
-		r, _ := dhcpv6.EncapsulateRelay(m, dhcpv6.MessageTypeRelayForward, net.ParseIP(fmt.Sprintf("2001:db8:%x::1", serial+1)), net.ParseIP(fmt.Sprintf("fe80::%x:2", serial+1)))
+		r0, _ := dhcpv6.EncapsulateRelay(m, dhcpv6.MessageTypeRelayForward, net.ParseIP(fmt.Sprintf("2001:db8:%x::1", serial+1)), net.ParseIP(fmt.Sprintf("fe80::%x:2", serial+1)))
+		r := r0
+		r.AddOption(dhcpv6.OptInterfaceID([]byte("if-" + tagS)))
 		r2, _ := dhcpv6.EncapsulateRelay(r, dhcpv6.MessageTypeRelayForward, net.ParseIP(fmt.Sprintf("2001:db8:%x::2", serial+1)), net.ParseIP(fmt.Sprintf("fe80::%x:3", serial+1)))
 		return r2.ToBytes(), from
 	}
